@@ -1,7 +1,7 @@
 (* C06: trace checker (model vs implementation) and monitor (the property as a boolean over
    the implementation's observations: calls with authorisation sets, outcomes, all public
    getters over the small universe).  The monitor uses no model state. *)
-From SC Require Import Lib.Prelude Lib.Int Lib.Host Model.RoleTransfer Model.Access.
+From SC Require Import Lib.Prelude Lib.Int Lib.Host Model.RoleTransfer Model.Access Model.AllowList.
 From SC Require Run.C07.
 
 Record aheader := {
@@ -14,7 +14,13 @@ Record aheader := {
 }.
 Definition aitem := (Access.call * bool * aobs)%type.
 
+(* examples/fungible-allowlist: the header of the AccessControl part, the "manager" role and the
+   account the constructor grants it to *)
+Record alheader := { alh : aheader; alh_manager : role; alh_macct : addr }.
+Definition alitem := (alcall * bool * alobs)%type.
+
 Inductive trace :=
+| TAllow (h : alheader) (o0 : alobs) (l : list alitem)    (* examples/fungible-allowlist: role-guarded allow / disallow *)
 | TAC (h : aheader) (o0 : aobs) (l : list aitem)          (* examples/nft-access-control; o0 = getters right after construction *)
 | TOwn (h : C07.header) (l : list C07.item).              (* examples/ownable: #[only_owner] *)
 
@@ -212,12 +218,16 @@ Definition mon_step (h : aheader) (p : aobs) (it : aitem) : bool :=
                    && (N.eqb spender from || eqb_on (obs_appr u p token) (Some spender))
                    && eqb_on (obs_token u p token) (Some from)) &&
       (if ok then negb (is_some (obs_token u o token)) else same_tokens)
-  | Approve approver approved token au =>
-      (* not role-guarded: the owner approves a spender for its token *)
+  | Approve approver approved token lu au =>
+      (* not role-guarded: only the owner, with its authorisation, approves a spender for its token *)
       same_members && same_admin && same_role_admins && same_owners &&
-      Bool.eqb ok (has_auth au approver && eqb_on (obs_token u p token) (Some approver)) &&
-      (if ok then eqb_on (obs_appr u o token) (Some approved) else same_appr)
-  | Advance _ => ok && unchanged
+      (if ok then has_auth au approver && eqb_on (obs_token u p token) (Some approver)
+                  && eqb_on (obs_appr u o token) (if lu =? 0 then None else Some approved)
+       else same_appr)
+  | Advance _ =>
+      (* the passing of time changes no role, admin, role admin or owner, however long; an approval may only lapse *)
+      ok && same_members && same_admin && same_role_admins && same_owners
+      && eqb_list (fun n o' => match n with None => true | Some _ => eqb_on n o' end) (ob_approved o) (ob_approved p)
   end.
 
 Fixpoint mon_from (h : aheader) (p : aobs) (l : list aitem) (i : N) : N :=
@@ -249,13 +259,61 @@ Fixpoint own_from (hp : option addr) (l : list C07.item) (i : N) : N :=
   | it :: r => if own_step hp it then own_from (fst (snd it)) r (N.succ i) else N.succ i
   end.
 
+(* ======================= the allow-list contract ======================= *)
+Definition alh_cfg (h : alheader) : alcfg := {| al_c := ah_cfg (alh h); al_manager := alh_manager h |}.
+Definition alh_init (h : alheader) : alst :=
+  al_init (alh_cfg h) (ah_start (alh h)) (match ah_admin (alh h) with Some a => a | None => 0%N end) (alh_macct h).
+Definition eqb_alobs (a b : alobs) : bool := eqb_aobs (fst a) (fst b) && eqb_list Bool.eqb (snd a) (snd b).
+
+Fixpoint al_diff_from (c : alcfg) (u : universe) (s : alst) (l : list alitem) (i : N) : N :=
+  match l with
+  | [] => 0%N
+  | (cl, ok, ob) :: r =>
+      let '(s', ok') := al_step c s cl in
+      if Bool.eqb ok ok' && eqb_alobs ob (al_observe u s') then al_diff_from c u s' r (N.succ i) else N.succ i
+  end.
+
+(* allow_user / disallow_user run exactly for an authorised holder of "manager", change exactly the
+   named account's flag and nothing about roles; every AccessControl call obeys the access-control
+   monitor and leaves the allow flags alone (also across arbitrarily long ledger gaps) *)
+Definition al_mon_step (h : alheader) (p : alobs) (it : alitem) : bool :=
+  let '(cl, ok, o) := it in
+  let u := ah_u (alh h) in
+  match cl with
+  | ACall c => mon_step (alh h) (fst p) (c, ok, fst o) && eqb_list Bool.eqb (snd o) (snd p)
+  | AllowUser user op au | DisallowUser user op au =>
+      let v := match cl with AllowUser _ _ _ => true | _ => false end in
+      obs_consistent u (fst o)
+      && eqb_membership (membership (fst o)) (membership (fst p))
+      && eqb_on (ob_admin (fst o)) (ob_admin (fst p))
+      && eqb_list eqb_on (role_admins (fst o)) (role_admins (fst p))
+      && Bool.eqb ok (obs_has u (fst p) op (alh_manager h) && has_auth au op)
+      && eqb_list Bool.eqb (snd o)
+           (if ok then match index_of user (u_accounts u) with Some k => set_nth (snd p) k v | None => snd p end
+            else snd p)
+  end.
+Fixpoint al_mon_from (h : alheader) (p : alobs) (l : list alitem) (i : N) : N :=
+  match l with
+  | [] => 0%N
+  | it :: r => if al_mon_step h p it then al_mon_from h (snd it) r (N.succ i) else N.succ i
+  end.
+
 (* well-formedness of the header (what the harness guarantees): universe without duplicates *)
 Definition wf_aheader (h : aheader) : bool :=
   nodupb (u_accounts (ah_u h)) && nodupb (u_roles (ah_u h)) && nodupb (u_tokens (ah_u h)) && (1 <=? ah_min h)
   && (Z.of_nat (length (u_accounts (ah_u h))) <? MAXU32).
 
+Definition wf_alheader (h : alheader) : bool :=
+  match ah_admin (alh h) with Some a => existsb (N.eqb a) (u_accounts (ah_u (alh h))) | None => false end
+  && existsb (N.eqb (alh_macct h)) (u_accounts (ah_u (alh h)))
+  && existsb (N.eqb (alh_manager h)) (u_roles (ah_u (alh h))).
+
 Definition check (t : trace) : verdict :=
   match t with
+  | TAllow h o0 l =>
+      (if wf_aheader (alh h) && wf_alheader h && eqb_alobs o0 (al_observe (ah_u (alh h)) (alh_init h))
+       then al_diff_from (alh_cfg h) (ah_u (alh h)) (alh_init h) l 0%N else 1%N,
+       if obs_consistent (ah_u (alh h)) (fst o0) then al_mon_from h o0 l 0%N else 1%N, 0%N)
   | TAC h o0 l =>
       (if wf_aheader h && eqb_aobs o0 (Access.observe (ah_u h) (ah_init h))
        then diff_from (ah_cfg h) (ah_u h) (ah_init h) l 0%N else 1%N,
@@ -277,6 +335,14 @@ Definition observe_model (h : aheader) (cs : list Access.call) : trace :=
 Definition observe_model_own (h : C07.header) (cs : list RoleTransfer.call) : trace :=
   TOwn h (C07.model_items (C07.h_kind h) (C07.h_cfg h) (C07.h_init h) cs).
 
+Fixpoint al_model_items (c : alcfg) (u : universe) (s : alst) (cs : list alcall) : list alitem :=
+  match cs with
+  | [] => []
+  | cl :: r => let '(s', ok) := al_step c s cl in (cl, ok, al_observe u s') :: al_model_items c u s' r
+  end.
+Definition observe_model_allow (h : alheader) (cs : list alcall) : trace :=
+  TAllow h (al_observe (ah_u (alh h)) (alh_init h)) (al_model_items (alh_cfg h) (ah_u (alh h)) (alh_init h) cs).
+
 (* every account / role / token mentioned by a call belongs to the universe *)
 Definition inb (x : N) (l : list N) : bool := existsb (N.eqb x) l.
 Definition wf_call (u : universe) (cl : Access.call) : bool :=
@@ -291,7 +357,12 @@ Definition wf_call (u : universe) (cl : Access.call) : bool :=
   | MultiRoleAction c _ | MultiRoleAuthAction c _ => A c
   | Burn f t _ => A f && T t
   | BurnFrom sp f t _ => A sp && A f && T t
-  | Approve a b t _ => A a && A b && T t
+  | Approve a b t _ _ => A a && A b && T t
+  end.
+Definition wf_alcall (u : universe) (cl : alcall) : bool :=
+  match cl with
+  | ACall c => wf_call u c
+  | AllowUser a b _ | DisallowUser a b _ => inb a (u_accounts u) && inb b (u_accounts u)
   end.
 Definition wf_admin (h : aheader) : bool :=
   match ah_admin h with Some a => inb a (u_accounts (ah_u h)) | None => true end
@@ -367,3 +438,20 @@ Definition ex_cfg : cfg := ah_cfg ex_h.
 Definition ex_calls : list Access.call :=
   [SetRoleAdmin 0 2 [0]; SetRoleAdmin 2 0 [0]; Grant 1 2 0 [0]; Grant 2 0 1 [1]; Grant 3 0 1 [1]; Grant 1 0 1 [1];
    Revoke 2 0 1 [1]; RenounceAdmin [0]; Grant 2 2 3 [3]; Grant 0 0 1 [1]; AdminRestricted [0]]%N.
+
+(* allow-list: a non-manager's allow_user "succeeds"; an allow flag lapses over a long ledger gap *)
+Definition ex_alh : alheader := {| alh := ex_h; alh_manager := 2%N; alh_macct := 1%N |}.
+Definition al_good (cs : list alcall) : list alitem := al_model_items (alh_cfg ex_alh) ex_u (alh_init ex_alh) cs.
+Definition al_mon_of (l : list alitem) : N := snd (fst (check (TAllow ex_alh (al_observe ex_u (alh_init ex_alh)) l))).
+Example C06_monitor_rejects_allow_by_non_manager :
+  al_mon_of (map (fun it => match it with (_, ok, o) => (AllowUser 3%N 0%N [0%N], ok, o) end) (al_good [AllowUser 3%N 1%N [1%N]])) = 1%N /\
+  al_mon_of (map (fun it => match it with (_, ok, o) => (AllowUser 3%N 1%N [], ok, o) end) (al_good [AllowUser 3%N 1%N [1%N]])) = 1%N /\
+  al_mon_of (al_good [AllowUser 3%N 1%N [1%N]; ACall (Access.Advance 4000000%N)]) = 0%N.
+Proof. vm_compute. repeat split; reflexivity. Qed.
+Example C06_monitor_rejects_lapsed_state :
+  (* after one long Advance the implementation shows the allow flag gone / the role gone *)
+  al_mon_of (match al_good [AllowUser 3%N 1%N [1%N]; ACall (Access.Advance 4000000%N)] with
+             | [a; (cl, ok, (o, fl))] => [a; (cl, ok, (o, map (fun _ => false) fl))] | l => l end) = 2%N /\
+  mon_of (match good [Grant 1 0 0 [0]; Access.Advance 4000000]%N with
+          | [a; (cl, ok, o)] => [a; (cl, ok, Access.observe ex_u (ah_init ex_h))] | l => l end) = 2%N.
+Proof. vm_compute. split; reflexivity. Qed.
